@@ -176,6 +176,7 @@ def check_P3(prog, rep, eff, key, f, rasters):
             continue
         kws = {k.arg: k.value for k in call.keywords if k.arg}
         probs = []
+        primary = next((p_ for p_ in f.params if p_ in rasters), None)
         for field in ('coords', 'dims', 'attrs'):
             v = kws.get(field)
             if v is None:
@@ -186,6 +187,10 @@ def check_P3(prog, rep, eff, key, f, rasters):
                 probs.append('%s=%s is not the input raster\'s .%s' % (field, norm(v)[:50], field))
             elif src[1] == 'shared-then-edited':
                 probs.append('attrs of the input are edited without a deep copy')
+            elif primary is not None and bind.get(src[0]) != primary:
+                # several rasters go in, one identity comes out: the first raster parameter's, as in every sibling function
+                probs.append('%s is taken from `%s`, not from the first raster `%s` whose identity the result keeps' % (
+                    field, bind.get(src[0]), primary))
         rep.add('P3', scope, entry, norm(call)[:200], call.lineno, not probs,
                 'the result must carry the input raster\'s coords (whole mapping), dims and attrs: ' + '; '.join(probs))
 
